@@ -93,7 +93,7 @@ def run(ctx):
     chosen = [rnd.choice(v) for _, v in sorted(by_w.items())]
     rest = [c for c in uniq if c not in chosen]
     rnd.shuffle(rest)
-    chosen += rest[:ctx.pick(14, 190)]
+    chosen += rest[:ctx.pick(14, 340)]
     rnd.shuffle(chosen)
     cf = os.path.join(ctx.scratch, "cases.json")
     with open(cf, "w") as f:
@@ -121,7 +121,7 @@ def run(ctx):
         tr = os.path.join(ctx.scratch, "membership.ndjson")
         # ReapTimeout:ReapReadOnlyTimeout in ms; one role's timeout is more than twice the other's, both ways round; 0 = never
         reap = ctx.pick("5000:2000,2000:5000", "5000:2000,2000:5000,0:2000,2500:0,7000:3000")
-        return ctx.run_harness(["membership", "-out", tr, "-cases", cf, "-walks", str(ctx.pick(2, 12)), "-walklen", str(ctx.pick(12, 25)),
+        return ctx.run_harness(["membership", "-out", tr, "-cases", cf, "-walks", str(ctx.pick(2, 20)), "-walklen", str(ctx.pick(12, 30)),
                                 "-notify", str(ctx.pick(5, 30)), "-reap", reap, "-dir", ctx.sub("mb")], timeout=3000)
     ctx.harness()       # build before the threads start
     with concurrent.futures.ThreadPoolExecutor(max_workers=4) as ex:
